@@ -690,8 +690,93 @@ def p_C19(ctx):
     return ctx.finish("every configuration TLC enumerates from spec/Cli.tla (quick: the complete area x k_exp product and the complete location x RED1 x RED2 product, the other half by a covering function - 3538 runs; thorough: the complete product, 607 500 runs) is executed by the real binary (debug profile); exit code, the three origin lines, effective k_exp / area / RED1 / RED2 in --json, write-back in --oc metadata and the per-m2 ratio are judged by TLC against Cli!Allowed")
 
 
+def render_abs(comps):
+    lines = []
+    for x in comps:
+        v = ", ".join(str(y) for y in x["v"])
+        k = x["kind"]
+        if k == "USED":
+            lines.append("%d, CONSUMO, %s, %s, %s" % (x["id"], x["srv"], x["cr"], v))
+        elif k == "PROD":
+            lines.append("%d, PRODUCCION, %s, %s" % (x["id"], x["src"], v))
+        elif k == "AUX":
+            lines.append("%d, AUX, %s" % (x["id"], v))
+        elif k == "OUT":
+            lines.append("%d, SALIDA, %s, %s" % (x["id"], x["srv"], v))
+        elif k == "NEED":
+            lines.append("DEMANDA, %s, %s" % (x["srv"], v))
+    return "\n".join(lines) + "\n"
+
+
+def p_C16(ctx):
+    import cli
+    ctx.level = "fault_enumeration"
+    st = ctx.mc("MC_C16", "MC_C16_quick.cfg" if ctx.quick else "MC_C16_thorough.cfg", timeout=6000)
+    faults = list(vlib.mc_cases(st))
+    # --- in-process: every library entry point on every enumerated text
+    d = os.path.join(WORK, "run", ctx.pid)
+    os.makedirs(d, exist_ok=True)
+    cpath, tpath = os.path.join(d, "lib.cases"), os.path.join(d, "lib.ndjson")
+    with open(cpath, "w") as f:
+        for c in faults:
+            ctx.ncases += 1
+            c["case"] = ctx.ncases
+            ctx.cases[ctx.ncases] = c
+            f.write(json.dumps(c) + "\n")
+    vlib.run_harness("fault", cpath, tpath)
+    res = vlib.validate("Trace_C16", tpath)
+    ctx.events += res["events"]
+    ctx.verdicts += res["verdicts"]
+    ctx.unjudged += res["unjudged"]
+    if not res["accepted"]:
+        ctx.rejected = True
+    # distinct corrupted files that reached another parser branch than their base file
+    branch = {}
+    basebranch = {}
+    for line in open(tpath):
+        e = json.loads(line)
+        sig = json.dumps([[s_["s"], s_["o"], s_.get("msg", "")[:25]] for s_ in e["stages"][:2]])
+        if e["depth"] == 0:
+            basebranch[(e["kind"], e["base"])] = sig
+        branch[e["case"]] = (e["kind"], e["base"], sig, json.dumps(e["lines"]))
+    distinct = {v[3] for v in branch.values() if v[1] != 0 and basebranch.get((v[0], v[1])) not in (None, v[2])}
+    soups = {v[3] for v in branch.values() if v[1] == 0}
+    ctx.extra["files_in_other_branch_than_base"] = len(distinct)
+    ctx.extra["token_soups"] = len(soups)
+    ctx.extra["fault_files"] = len(faults)
+    sample_lib = [json.loads(l) for l in open(tpath).readlines()[200:202]]
+    # --- out of process: the real program (debug profile) on the same bytes, on valid texts and on option atoms
+    recs = [dict(c) for c in (faults if not ctx.quick else faults[::2] + faults[1::6])]
+    texts = [{"kind": "text", "text": t, "loc": loc} for t in C08_SHAPES for loc in ("PENINSULA", "CANARIAS")]
+    texts += [{"kind": "text", "text": t, "extra": ["-F"]} for t in C08_SHAPES]
+    c06 = ctx.mc("MC_Comp", "MC_Comp_C06_thorough.cfg")
+    texts += [{"kind": "text", "text": render_abs(c["src"]["comps"])} for c in stride(vlib.mc_cases(c06), 20 if ctx.quick else 2)]
+    import gen
+    texts += [{"kind": "text", "text": render_abs(c["src"]["comps"]), "extra": ["--load_matching"] if i % 2 else []}
+              for i, c in enumerate(gen.cases(ctx.seed, 150 if ctx.quick else 3000, None, aux=True))]
+    texts += [{"kind": "text", "text": open(p, encoding="utf-8", errors="replace").read()} for p in shipped_files()]
+    atoms = ["", "abc", "ñ€", "NaN", "inf", "-inf", "1e39", "-0", "1e-46", "007", "+1", "1.", "#", "0", "1", "0.001", "1e-4", "-1", "2"]
+    opts = [{"kind": "option", "argv": ["--arearef=" + a]} for a in atoms] + [{"kind": "option", "argv": ["--kexp=" + a]} for a in atoms]
+    opts += [{"kind": "option", "argv": ["--arearef=" + a, "--kexp=" + b]} for a in ("NaN", "inf", "1e39") for b in ("NaN", "inf", "0.5")]
+    for a in ("NaN", "inf", "1e39", "abc", "-0", "1"):
+        for b in ("NaN", "-inf", "x", "0"):
+            opts.append({"kind": "option", "argv": ["--red1", a, b, "0.3", "--red2", b, "1", a]})
+    cli_replay(ctx, cli.fault_cli_case, recs + texts + opts, "cli", "Trace_C16")
+    ctx.extra["processes"] = len(recs) + len(texts) + len(opts)
+    ctx.extra["evaluations"] = ctx.events
+    ctx.nontrivial = distinct | soups
+    sample_cli = [json.loads(l) for l in open(ctx.last_trace).readlines()[50:52]]
+    ctx.samples = [{"lines": e["lines"], "stages": e["stages"][:4]} for e in sample_lib] + \
+                  [{"kind": e["kind"], "how": e["how"], "stderr_head": e["stderr_head"]} for e in sample_cli]
+    ctx.assumptions = ["text is modelled at token level: the writers (harness/src/main.rs fault_bytes, driver/cli.py fault_bytes) map atoms to bytes; byte soup beyond the atom alphabet is not generated",
+                       "a hang is observed as a 10 s wall-clock timeout of the process", "the debug profile of the binary is used (the profile of the pinned tests)",
+                       "library entry points are called under catch_unwind in the harness; a panic is recorded as data"]
+    return ctx.finish("model-driven fault enumeration: TLC enumerates all single faults (quick) / all fault pairs (thorough) of 5 components files and 2 factor files over 21 atoms, plus token soups; every text goes through every public library entry point under catch_unwind and through the real program (half of them in the quick tier), together with valid texts of every kind and numeric option atoms; oracle = terminal states of the specification (Ok / typed error; deliberate exit code with stderr); distinct_nontrivial = distinct corrupted files that reached another parser branch than their base file + distinct token soups")
+
+
 PROPS = {
     "C01": p_C01,
+    "C16": p_C16,
     "C19": p_C19,
     "C02": p_C02,
     "C03": p_C03,
